@@ -20,7 +20,7 @@ func Main() {
 				DepthQ:      4,
 				DepthT:      6,
 				Unmerged:    2,
-				CrashBudget: 2,
+				CrashBudget: 1,
 			})
 		})
 }
